@@ -300,6 +300,14 @@ func (c *Client) Send(m proto.Message) {
 			c.own = map[uint32]proto.Message{}
 		}
 		c.own[rid] = m
+		if sr, ok := m.(*hagallpb.EntityComponentTypeSubscribeRequest); ok {
+			// from the moment it asks, a client must be prepared for notifications: the server may
+			// relay one between registering the subscription and answering the request
+			if c.subs == nil {
+				c.subs = map[uint32]bool{}
+			}
+			c.subs[sr.EntityComponentTypeId] = true
+		}
 	} else {
 		c.View.applyOwnUnanswered(m)
 	}
